@@ -56,6 +56,8 @@ def detect_scratch(sd, prop, tier="quick", base=os.environ.get("MUTLAB", "/tmp/m
     finally:
         sh("git checkout -q -- .", cwd=wt)
     viol = [l for l in out_txt.splitlines() if l.startswith("VIOLATION")]
+    with open(base + "/last.out", "w") as f:
+        f.write(out_txt)
     res = {"property": prop, "tier": tier, "exit": rc, "violations": len(viol), "first": viol[:3], "wall_s": round(time.time() - t0),
            "tail": out_txt.splitlines()[-3:], "mode": "scratch worktree + scratch harness"}
     print(json.dumps(res, indent=1))
